@@ -339,9 +339,6 @@ func c02Jobs(tier string) []*Job {
 	}
 	// hostnames that are label-wise prefixes of each other (pool window 20..23), from the empty router
 	kk := 2
-	if tier == "thorough" {
-		kk = 3
-	}
 	js = append(js, &Job{Harness: "C02History", Params: map[string]int{"set": -1, "k": kk, "methods": 2, "symlen": 0, "pool": 4, "poolfrom": 20, "iter": 1}})
 	js = append(js, &Job{Harness: "C02History", Params: map[string]int{"set": -1, "k": kk, "methods": 2, "symlen": 0, "pool": 4, "poolfrom": 20, "iter": 0}})
 	// a route registered on an existing branching node without a route, then writes below it (pool window 24..27, siblings-3 set)
@@ -544,14 +541,12 @@ func init() {
 			js = append(js, &Job{Harness: "C04Txn", Params: map[string]int{"set": 29, "k": 2, "pool": 4, "poolfrom": 28, "iter": 0}})
 			// a route registered on an existing branching node without a route, then writes below it (pool window 24..27)
 			js = append(js, &Job{Harness: "C04Txn", Params: map[string]int{"set": 17, "k": 2, "pool": 4, "poolfrom": 24, "iter": 0}})
-			if tier == "thorough" {
-				js = append(js, &Job{Harness: "C04Txn", Params: map[string]int{"set": 17, "k": 3, "pool": 4, "poolfrom": 24, "iter": 0}})
-			}
+
 			return js
 		},
 		Bounds: func(tier string) string {
 			if tier == "thorough" {
-				return "6 start sets x transactions of k<=3 writes (7 kinds, methods {GET,FOO}, pattern pool 12/4..6/2 for k=1/2/3, k=3 on two of the sets; on the siblings-3 set also k<=3 over a pool holding a route on an existing branching node and routes below it) x 5 endings (Commit, Abort, Updates returning nil, Updates returning an error after j ops, Updates panicking after j ops; j symbolic in 0..k); on two start sets a snapshot of the write transaction is written to (must refuse) and settled by Commit / Abort (must neither publish nor release the writer lock); txn view, router view and a fresh read-only txn compared with the model after every step; settled-txn, double Commit/Abort, new-writer and read-only-writes obligations on every path"
+				return "6 start sets x transactions of k<=3 writes (7 kinds, methods {GET,FOO}, pattern pool 12/4..6/2 for k=1/2/3, k=3 on two of the sets; on the siblings-3 set also k=2 over a pool holding a route on an existing branching node and routes below it) x 5 endings (Commit, Abort, Updates returning nil, Updates returning an error after j ops, Updates panicking after j ops; j symbolic in 0..k); on two start sets a snapshot of the write transaction is written to (must refuse) and settled by Commit / Abort (must neither publish nor release the writer lock); txn view, router view and a fresh read-only txn compared with the model after every step; settled-txn, double Commit/Abort, new-writer and read-only-writes obligations on every path"
 			}
 			return "4 start sets x transactions of k<=2 writes (7 kinds, methods {GET,FOO}, pattern pool 12 for k=1, 4..8 for k=2 on three start sets, with and without an iterator on the open transaction between steps; on the siblings-3 set also k=2 over a pool holding a route on an existing branching node and routes below it) x 5 endings (Commit, Abort, Updates returning nil, Updates returning an error after j ops, Updates panicking after j ops; j symbolic in 0..k); on two start sets a snapshot of the write transaction is written to (must refuse) and settled by Commit / Abort (must neither publish nor release the writer lock); txn view, router view and a fresh read-only txn compared with the model after every step; settled-txn, double Commit/Abort, new-writer and read-only-writes obligations on every path"
 		},
